@@ -400,7 +400,7 @@ async fn run_cycle(dir: &Path, scratch: &Path, rng: &mut Rng, sum: &mut Summary,
             let mut g = COLL.lock().unwrap(); let c = g.as_mut().unwrap();
             c.op = i; c.a = 0; c.b = 0;
             c.record = plan.record(i, nwrites);
-            c.trunc = if c.record && plan.trunc { vec![1, 3, 5, 9, 0] } else { vec![] };
+            c.trunc = if c.record && plan.trunc { if plan.nops > 100 { vec![3, 0] } else { vec![1, 3, 5, 9, 0] } } else { vec![] };
             c.all_trunc = c.record && plan.all_trunc;
         }
         match apply_op(&mgr, dir, rng, kind, plan.nkeys).await {
@@ -468,11 +468,11 @@ async fn mode_c06(args: &Args, sum: &mut Summary) {
     let root = std::env::temp_dir().join(format!("vh-c06-{}-{}", std::process::id(), args.seed));
     let _ = std::fs::remove_dir_all(&root);
     saorsa_core::verif_hooks::set_crash_point_callback(Some(Arc::new(on_crash_point)));
-    let mut w = CaseWriter::new(&args.out, "cases_c06", HEADER, "c06_case", "check_c06", "prop_c06", 6);
+    let mut w = CaseWriter::new(&args.out, "cases_c06", HEADER, "c06_case", "check_c06", "prop_c06", 2);
     let mut wbig = CaseWriter::new(&args.out, "cases_c06_rot", HEADER, "c06_case", "check_c06", "prop_c06", 1);
     let thorough = args.thorough();
-    let nsmall = if thorough { 260 } else { 36 };
-    let nbig = if thorough { 6 } else { 2 };
+    let nsmall = if thorough { 260 } else { 30 };
+    let nbig = if thorough { 6 } else { 1 };
     let mut id = 0u64;
     let mut seen = std::collections::HashSet::new();
     for h in 0..(nsmall + nbig) {
